@@ -38,6 +38,9 @@ func (o *c19Origin) start() error {
 	idx := o.idx
 	o.srv = &http.Server{Handler: http.HandlerFunc(func(w http.ResponseWriter, r *http.Request) {
 		w.Header().Set("Cache-Control", "no-cache")
+		if r.URL.Path == "/slow" { // an answer that takes two seconds
+			time.Sleep(2 * time.Second)
+		}
 		if r.URL.Path == "/crash" { // one broken exchange: the connection is dropped without an answer; the server stays up
 			if hj, ok := w.(http.Hijacker); ok {
 				if conn, _, err := hj.Hijack(); err == nil {
